@@ -78,6 +78,41 @@ def renew_case(seed, i, how):
     return core.Case("backend", lines, {"engine": "memkv", "native": True, "renew": True, "ev": [e], "look": []}, compare=lambda op: False)
 
 
+def badger_young_case(i):
+    """Badger keeps deadlines in whole seconds: an Event written just before a second boundary must still live for its
+    whole ttl (1 s here). Created 850 ms into a second, probed 400 ms later (wall-clock marks make the run conclusive)."""
+    e = EVENT_KEYS[i % len(EVENT_KEYS)]
+    lines = [hist.cfg_line("badger", eventsttl=1), "alignsec %d" % [850, 920, 700][i % 3], "mark c",
+             "create %s %s" % (hx(e), hx(b"v1")), "rev", "sleep %d" % [400, 250, 500][i % 3], "echo young",
+             "get %s 0" % hx(e), "create %s %s" % (hx(e), hx(b"dup")), "rev", "since c",
+             "sleep 2300", "echo after-ttl", "get %s 0" % hx(e), "create %s %s" % (hx(e), hx(b"again")), "rev"]
+    return core.Case("backend", lines, {"engine": "badger", "native": True, "byoung": True, "ev": [e], "look": []}, compare=lambda op: False)
+
+
+def badger_young_oracle(case):
+    since = None
+    for line, out in zip(case.lines, case.impl):
+        if line == "since c" and len(out.split()) == 3:
+            since = int(out.split()[2])
+    mode = None
+    for i, (line, out) in enumerate(zip(case.lines, case.impl)):
+        t, o = line.split(), out.split()
+        if t[0] == "echo":
+            mode = t[1]
+            continue
+        if mode == "young" and since is not None and since < 950:
+            if t[0] == "get" and len(o) >= 3 and o[2] == "-":
+                return ("line %d: an Event created %d ms ago at most (ttl 1000 ms) reads absent on Badger: %s" % (i + 1, since, out), "young-event-removed")
+            if t[0] == "create" and o[1] == "ok":
+                return ("line %d: an Event created less than %d ms ago (ttl 1000 ms) could be created again on Badger: it had expired early" % (i + 1, since), "young-event-removed")
+        if mode == "after-ttl":
+            if t[0] == "get" and len(o) >= 3 and o[2] != "-":
+                return ("line %d: an Event is still there 2.3 s after a ttl of 1 s (plus one second of rounding): %s" % (i + 1, out), "expired-event-present")
+            if t[0] == "create" and o[1] != "ok":
+                return ("line %d: an expired Event cannot be created again: %s" % (i + 1, out), "expired-partially")
+    return None
+
+
 def renew_conclusive(case):
     t = {}
     for line, out in zip(case.lines, case.impl):
@@ -435,6 +470,7 @@ def check(rep, tier, seed):
     # the in-memory engine's own ttl timers, at the engine boundary (model: KB.MemTTL, theorems: KB.Props.C17Mem)
     cases += [engine_ttl_case(seed, i, ENGINE_TTL_ENGINES[i % 2], tier) for i in range(2 if tier == "quick" else 20)]
     cases += [renew_case(seed, i, ["update", "recreate"][i % 2]) for i in range(2 if tier == "quick" else 24)]
+    cases += [badger_young_case(i) for i in range(2 if tier == "quick" else 12)]
     core.run_cases(cases, workers=14)
     for c in cases:
         if c.meta.get("renew"):
@@ -443,7 +479,7 @@ def check(rep, tier, seed):
                     break
                 c.run()
             rep.cov["renew_cases_conclusive"] = rep.cov.get("renew_cases_conclusive", 0) + (1 if renew_conclusive(c) else 0)
-    pick = lambda c: engine_ttl_oracle(c) if c.meta.get("engine_ttl") else concurrent_oracle(c) if c.meta.get("concurrent") else renew_oracle(c) if c.meta.get("renew") else native_oracle(c) if c.meta.get("native") else oracle(c)
+    pick = lambda c: badger_young_oracle(c) if c.meta.get("byoung") else engine_ttl_oracle(c) if c.meta.get("engine_ttl") else concurrent_oracle(c) if c.meta.get("concurrent") else renew_oracle(c) if c.meta.get("renew") else native_oracle(c) if c.meta.get("native") else oracle(c)
     if core.judge(rep, "C17", cases, pick):
         return
     rep.assumptions += ["events TTL 1 s through the verif setter; model time advances only by the script's sleeps (300 ms = young, 1300 ms = old); "
